@@ -30,7 +30,14 @@ Definition rot_unit (x y z s c : R) : RM :=
 Lemma rotate3d_is_rot_unit v a :
   @mk_rotate3d ROps v a =
   rot_unit (wx (@v3normalize ROps v)) (wy (@v3normalize ROps v)) (wz (@v3normalize ROps v)) (sin a) (cos a).
-Proof. reflexivity. Qed.
+Proof.
+  (* entry by entry over the reals (ring): the statement does not depend on how sdf/matrix.go associates or
+     orders the products of an entry *)
+  first [ reflexivity
+        | unfold mk_rotate3d, rot_unit; cbv zeta;
+          generalize (@v3normalize ROps v); intros [x y z]; cbn [wx wy wz];
+          repeat (f_equal; try (cbn; ring)) ].
+Qed.
 
 Lemma normalize_unit (v : RV3) : len3 v <> 0 ->
   let n := @v3normalize ROps v in wx n * wx n + wy n * wy n + wz n * wz n = 1.
